@@ -146,7 +146,8 @@ def execute(case, ch) -> dict:
                 # what the save carries: its own text / the same text as every other save / the text that is stored already
                 content = {"own": f"content of save{i}", "shared": "the same fix", "initial": "initial"}[case.get("texts", "own")]
                 dto = Dto.Method(lines=[Dto.MethodLine(id="l0", content=content)], version=v0 + bases[i], last_author="")
-                tasks[i] = s.loop.spawn(pu.save_method(user_name=f"U{i}", user_id=f"u{i}", user_roles=set(), unit_id=ENGINE,
+                who = 0 if case.get("same_user") else i          # all saves by one user (second tab, double click, no authentication)
+                tasks[i] = s.loop.spawn(pu.save_method(user_name=f"U{who}", user_id=f"u{who}", user_roles=set(), unit_id=ENGINE,
                                                        method_dto=dto, agg=s.agg), name=f"save{i}")
                 started_at[i] = len(steps)
                 v_at_start[i] = v_step
@@ -313,14 +314,17 @@ def cases(quick: bool):
     for bases in ((0,), (0, 0), (0, 1)) + (() if quick else ((0, 0, 1), (0, 1, 2))):
         for v0 in (0, 5):
             out.append(dict(v0=v0, bases=list(bases), outcomes=["ok", "engine_error"], report=True))
+    # all saves come from the same user
+    for bases in ((0, 0), (0, 1)) + (() if quick else ((0, 0, 0), (0, 0, 1), (0, 1, 2))):
+        out.append(dict(v0=0, bases=list(bases), outcomes=list(OUTCOMES), same_user=True))
     # saves that carry the same text (two users typing the same fix, a retried request) or the text that is stored already
     same = []
     for c in out:
-        if not c.get("report") and (len(c["bases"]) <= (2 if quick else 3) or c["bases"] in ([0, 0, 0], [0, 0, 1])):
+        if not c.get("report") and not c.get("same_user") and (len(c["bases"]) <= (2 if quick else 3) or c["bases"] in ([0, 0, 0], [0, 0, 1])):
             for texts in ("shared", "initial"):
                 same.append(dict(c, texts=texts))
     out += same
-    out.sort(key=lambda c: (len(c["bases"]), sum(c["bases"]), c["bases"], c["v0"], c.get("texts", "own"), bool(c.get("report"))))     # simplest first
+    out.sort(key=lambda c: (len(c["bases"]), sum(c["bases"]), c["bases"], c["v0"], c.get("texts", "own"), bool(c.get("report")), bool(c.get("same_user"))))     # simplest first
     return out
 
 
